@@ -1176,7 +1176,16 @@ class Hyperplane(Subspace):
         expected_evals = np.ones(dimension + 1)
         expected_evals[0] = -1.
         eval_differences = np.sort(evals, axis=-1) - expected_evals
-        if (np.abs(eval_differences) > ERROR_THRESHOLD).any():
+
+        # the eigenvalue 1 is repeated, and the matrix of a reflection
+        # across a hyperplane far away from the origin is large and far
+        # from normal: its eigenvalues are only computed to about
+        # eps * |matrix|^2
+        threshold = np.maximum(
+            ERROR_THRESHOLD, 1e3 * np.finfo(evals.dtype).eps *
+            np.abs(matrix).max(axis=(-1, -2), keepdims=True)[..., 0]**2
+        )
+        if (np.abs(eval_differences) > threshold).any():
             raise GeometryError("Not a reflection matrix")
 
         #sometimes eigenvalues will be complex due to roundoff error
